@@ -36,6 +36,13 @@ FAULTS = [
     ("to-num", lambda: G.call("_সংখ্যা", G.s("abc")), "runtime"),
     ("error-builtin", lambda: G.call("_এরর", G.s("নিজস্ব বার্তা ১২৩")), "runtime"),
     ("split-bad", lambda: G.call("_স্ট্রিং-স্প্লিট", G.s("a"), G.num(1)), "runtime"),
+    # long payloads in the diagnostic (scale): keys, names and texts far beyond one line, in Bangla (multi-byte)
+    ("missing-key-long", lambda: G.idx(G.var("নথি"), G.s("আমাদের ছোট নদী চলে বাঁকে বাঁকে বৈশাখ মাসে তার হাঁটু জল থাকে")), "runtime"),
+    ("missing-key-long-ascii", lambda: G.idx(G.var("নথি"), G.s("k" * 300)), "runtime"),
+    ("undeclared-long-name", lambda: G.var("অঘোষিত-" + "চলক" * 40), "runtime"),
+    ("to-num-long", lambda: G.call("_সংখ্যা", G.s("সংখ্যা নয় " * 60)), "runtime"),
+    ("push-invalid-huge", lambda: G.call("_লিস্ট-পুশ", G.var("তালিকা"), G.num("9" * 30), G.num(1)), "runtime"),
+    ("index-huge", lambda: G.idx(G.var("তালিকা"), G.num("1" + "0" * 25)), "runtime"),
     # the whole container-kind x index-kind table of read indexing (the error class differs per cell)
     ("index-num-on-record", lambda: G.idx(G.var("নথি"), G.num(0)), "runtime"),
     ("index-num-on-number", lambda: G.idx(G.var("পাঁচ"), G.num(0)), "runtime"),
@@ -94,6 +101,7 @@ SPECIAL = [
     ("call-string-literal", [("rawstmt", [("দেখাও", "word"), ("\"ক\"", "str"), ("(", "op"), ("১", "num"), (")", "op"), (";", "op")])], "runtime"),
     ("index-write-after-call-in-index", [("assign", "তালিকা", [G.call("একই", G.num(7))], G.num(1))], "runtime"),
     ("index-write-after-call-in-value", [("assign", "তালিকা", [G.num(5)], G.call("একই", G.num(1)))], "runtime"),
+    ("write-path-missing-key-long", [("assign", "নথি", [G.s("নদীর ধারে " * 12), G.s("x")], G.num(1))], "runtime"),
     ("error-builtin-with-call-argument", [("expr", G.call("_এরর", G.call("একই", G.s("ডাকের পরে"))))], "runtime"),
     ("print-nil", [("decl", "শূন্য", None), ("print", G.var("শূন্য"))], "type"),
     ("print-function", [("print", G.var("একই"))], "type"),
